@@ -81,6 +81,9 @@ Definition L_rtc_listen_go := inline_all [("rtc_cand", L_rtc_cand)] (cl fn_rtc_l
 Definition L_rtc_dial_inner := cl fn_rtc_dial_inner rtc_dial_inner.
 Definition L_rtc_dial := inline_all [("rtc_dial_inner", L_rtc_dial_inner)] (cl fn_rtc_dial rtc_dial).
 
+Definition L_ws_serve := cl fn_ws_serve ws_serve.
+Definition L_ws_netaccept := cl fn_ws_netaccept ws_netaccept.
+
 Definition st_conn := mkSt Held Held Absent Absent 0 false None None [] false.   (* raw conn + scope given *)
 Definition st_raw := mkSt Held Absent Absent Absent 0 false None None [] false.    (* raw conn given, scope is the caller's *)
 Definition st_stream := mkSt Absent Absent Held Held 0 false None None [] false.
@@ -115,7 +118,9 @@ Definition entries : list (string * bool * st * list (list aev)) :=
    ("circuitv2 client.Dial", true, st0, L_relay_dial);
    ("webrtc listener.handleCandidate", true, st0, L_rtc_cand);
    ("webrtc listener.listen candidate goroutine", false, st0, L_rtc_listen_go);
-   ("webrtc WebRTCTransport.Dial", true, st0, L_rtc_dial)].
+   ("webrtc WebRTCTransport.Dial", true, st0, L_rtc_dial);
+   ("websocket listener.ServeHTTP", false, st0, L_ws_serve);
+   ("websocket httpNetListener.Accept", true, st0, L_ws_netaccept)].
 
 Definition entry_ok (e : string * bool * st * list (list aev)) : bool :=
   let '(_, vr, init, ps) := e in forallb (path_ok vr init) ps.
